@@ -480,6 +480,74 @@ func tbClientMethod(fd *ast.FuncDecl) (*tbMethod, error) {
 	return m, nil
 }
 
+var (
+	reTaggedM = regexp.MustCompile(`^\{ var tag uint32 = (0x[0-9a-f]+) buf := new\(bytes\.Buffer\) b, err := tl\.Marshal\(tag\) if err != nil \{ return nil, err \} _, err = buf\.Write\(b\) if err != nil \{ return nil, err \} b, err = tl\.Marshal\((\w+)\(t\)\) if err != nil \{ return nil, err \} _, err = buf\.Write\(b\) if err != nil \{ return nil, err \} return buf\.Bytes\(\), nil \}$`)
+	reTaggedU = regexp.MustCompile(`^\{ var \( res (\w+) tag uint32 \) err := tl\.Unmarshal\(r, &tag\) if err != nil \{ return err \} if tag != (0x[0-9a-f]+) \{ return fmt\.Errorf\("invalid tag"\) \} err = tl\.Unmarshal\(r, &res\) if err != nil \{ return err \} \*t = (\w+)\(res\) return nil \}$`)
+)
+
+// tbTagged: the hand-written boxed wrappers of liteclient/extensions.go (`type X XC` with a MarshalTL that writes a tag
+// literal and then XC(t), and the mirror-image UnmarshalTL). Every MarshalTL / UnmarshalTL of that file must have this
+// shape; other methods of the file (conversions, predicates) are not codecs and are skipped.
+func tbTagged(repo string) ([]string, error) {
+	file, err := parser.ParseFile(tbFset, filepath.Join(repo, "liteclient", "extensions.go"), nil, 0)
+	if err != nil {
+		return nil, err
+	}
+	alias := map[string]string{}
+	var order []string
+	mTag, uTag := map[string]string{}, map[string]string{}
+	for _, d := range file.Decls {
+		switch d := d.(type) {
+		case *ast.GenDecl:
+			if d.Tok != token.TYPE {
+				continue
+			}
+			for _, sp := range d.Specs {
+				ts := sp.(*ast.TypeSpec)
+				if id, ok := ts.Type.(*ast.Ident); ok && ts.Assign == token.NoPos {
+					alias[ts.Name.Name] = id.Name
+					order = append(order, ts.Name.Name)
+				}
+			}
+		case *ast.FuncDecl:
+			if d.Recv == nil || (d.Name.Name != "MarshalTL" && d.Name.Name != "UnmarshalTL") {
+				continue
+			}
+			recv := tbNorm(d.Recv.List[0].Type)
+			body := tbNorm(d.Body)
+			if d.Name.Name == "MarshalTL" {
+				m := reTaggedM.FindStringSubmatch(body)
+				if m == nil || alias[recv] != m[2] || tbNorm(d.Recv.List[0].Names[0]) != "t" {
+					return nil, fmt.Errorf("extensions.go: %s.MarshalTL outside the translated shape: %s", recv, body)
+				}
+				mTag[recv] = m[1]
+			} else {
+				name := strings.TrimPrefix(recv, "*")
+				m := reTaggedU.FindStringSubmatch(body)
+				if m == nil || !strings.HasPrefix(recv, "*") || alias[name] != m[1] || m[3] != name ||
+					len(d.Type.Params.List) != 1 || tbNorm(d.Type.Params.List[0].Type) != "io.Reader" || tbNorm(d.Type.Params.List[0].Names[0]) != "r" {
+					return nil, fmt.Errorf("extensions.go: %s.UnmarshalTL outside the translated shape: %s", recv, body)
+				}
+				uTag[name] = m[2]
+			}
+		}
+	}
+	var out []string
+	for _, n := range order {
+		mt, okM := mTag[n]
+		ut, okU := uTag[n]
+		if !okM && !okU {
+			continue
+		}
+		if !okM || !okU || mt != ut {
+			return nil, fmt.Errorf("extensions.go: %s: MarshalTL tag %q, UnmarshalTL tag %q", n, mt, ut)
+		}
+		v, _ := strconv.ParseUint(mt, 0, 64)
+		out = append(out, fmt.Sprintf("(%q, .tagged 0x%08x %q)", n, v, alias[n]))
+	}
+	return out, nil
+}
+
 func tlBindingsPart(repo, part string) (string, error) {
 	file, err := parser.ParseFile(tbFset, filepath.Join(repo, "liteclient", "generated.go"), nil, 0)
 	if err != nil {
@@ -603,7 +671,7 @@ func tlBindingsPart(repo, part string) (string, error) {
 	}
 	var sb strings.Builder
 	sb.WriteString("import TongoModel.Tl.BindingsMatch\nimport TongoGen.LiteApi\n")
-	sb.WriteString("/-! GENERATED by harness/cmd/extract (translator X7) from liteclient/generated.go — do not edit.\n")
+	sb.WriteString("/-! GENERATED by harness/cmd/extract (translator X7) from liteclient/generated.go and liteclient/extensions.go — do not edit.\n")
 	sb.WriteString("Every generated struct with the step sequences of its MarshalTL / UnmarshalTL, the client methods, the request\ndecoder table; and one matcher obligation per declaration of the regenerated schema. -/\n")
 	sb.WriteString("namespace Tongo.Gen\nopen Tongo.Tl Tongo.Tl.Bind\n\n")
 	var entries []string
@@ -658,7 +726,12 @@ func tlBindingsPart(repo, part string) (string, error) {
 		dl = append(dl, fmt.Sprintf("  { key := 0x%08x, tag := 0x%08x, tlName := %q, goType := %q }", k, tg, tln, dv[2]))
 	}
 	sort.Strings(dl)
-	fmt.Fprintf(&sb, "def tlBindings : Bindings := {\n  types := [%s] ++ handBindings,\n  methods := [\n%s],\n  decoders := [\n%s] }\n\n",
+	tagged, err := tbTagged(repo)
+	if err != nil {
+		return "", err
+	}
+	entries = append(entries, tagged...)
+	fmt.Fprintf(&sb, "def tlBindings : Bindings := {\n  types := [%s],\n  methods := [\n%s],\n  decoders := [\n%s] }\n\n",
 		strings.Join(entries, ",\n    "), strings.Join(ml, ",\n"), strings.Join(dl, ",\n"))
 	if part == "defs" {
 		sb.WriteString("end Tongo.Gen\n")
